@@ -323,6 +323,17 @@ def main(argv):
         data = json.load(open(argv[argv.index("--replay") + 1]))
         bad = 0
         for f in data.get("failures", []):
+            if f.get("rng_state") is not None:
+                import importlib
+                mod = importlib.import_module(prop.lower())
+                msgs = mod.replay_case(f["op"][0], f["rng_state"])
+                print("replay:", "FAILS" if msgs else "passes", msgs[:1])
+                bad += bool(msgs)
+                continue
+            if "cfg" not in f:
+                print("replay: (function-level case; re-run the check with the same VERIF_SEED to regenerate it)", f.get("clause"))
+                bad += 1
+                continue
             fs = [x for x in run_history(f["cfg"], [tuple(o) if isinstance(o, list) else o for o in map(_detuple, f["ops"])], [prop], known) if not x.get("known")]
             print("replay:", "FAILS" if fs else "passes", fs[:1])
             bad += bool(fs)
@@ -360,10 +371,13 @@ def main(argv):
         (reproduced if any(f.get("known") == k["id"] for f in fs) else stale).append(k["id"])
     rng = random.Random(1000003 * seed + 17)
     budget = {"quick": 25.0, "thorough": 600.0}[tier]
-    if prop in ("C16", "C12"):
+    if prop in ("C16", "C12", "C08", "C19", "C17"):
         import c16
         import c12
-        mod = c16 if prop == "C16" else c12
+        import c08
+        import c19
+        import c17
+        mod = {"C16": c16, "C12": c12, "C08": c08, "C19": c19, "C17": c17}[prop]
 
         def km(msg, kind, d):
             for k in known:
@@ -375,8 +389,10 @@ def main(argv):
         out = dict(failures=[dict(prop=prop, clause="(witness of listed finding reproduces)", known=i, step=-1, op=None) for i in repro] + [f for f in failures if not f.get("known")][:12],
                    stale_findings=[k["id"] for k in known if k["id"] not in repro],
                    summary=dict(kind="bounded stand-in (never counted as proved)", evaluations=evals, distinct_nontrivial=distinct,
-                                rule=("generated VirtualDevices (dimensions, atom number, distances, radial distance, layout limits) x registers / layouts placed at, just inside and just outside each limit; "
-                                      "independent oracle recomputes acceptance and the culprit sets; device-aware constructors; channel-parameter grid for device construction") if prop == "C12" else "every waveform class x duration 1..40 exhaustively, then random durations up to 1000; parameters drawn from small boundary-biased sets; "
+                                rule=c17.RULE if prop == "C17" else ("generated VirtualDevices (dimensions, atom number, distances, radial distance, layout limits) x registers / layouts placed at, just inside and just outside each limit; "
+                                      "independent oracle recomputes acceptance and the culprit sets; device-aware constructors; channel-parameter grid for device construction") if prop == "C12" else ("random histories turned into templates (variables for delays, phase shifts, constant-pulse amplitudes and durations), built three times "
+                                      "(values A, values B, values A again) and compared with direct construction; template state compared before/after; mappable registers resolved on a 4x4 layout") if prop == "C08" else ("generated 2-D/3-D layouts (coordinates from a small grid with perturbations below the 1e-6 precision) vs shuffled copies: sorted order, equality, hashes, "
+                                      "id <-> coordinate inverse, define_register, MappableRegister.build_register in declared order, detuning-map weights") if prop == "C19" else "every waveform class x duration 1..40 exhaustively, then random durations up to 1000; parameters drawn from small boundary-biased sets; "
                                      "concrete contracts: sample count, finiteness, documented values, indexing/slicing against Python's own, change_duration, scaling, "
                                      "from_max_val, Pulse ranges, ArbitraryPhase reconstruction; distinct = distinct (class, duration)",
                                 bound=f"{budget}s wall; durations 1..40 exhaustive", samples=samples))
